@@ -62,4 +62,11 @@ HARNESSES = [
                 for cfg in ("pool", "calloc")
                 for (sh, t) in ((0, "quick"), (1, "quick"), (2, "quick"), (3, "thorough"), (4, "quick"),
                                 (5, "thorough"), (6, "thorough"), (7, "thorough"), (8, "thorough"))]),
+    dict(name="str_table", file="str_table.c", label="bounded(strings<=2,len=7)",
+         fp={"key_equals_function": "eq_stub", "key_hash_function": "hash_stub",
+             "delete_function": "del_stub"},
+         flags=LEAK, timeout=300, unwind=6,
+         cases=[dict(id="n%d" % n, defines={"N": n}, tier="quick",
+                     unwindset=["str_table_copy.0:%d" % (n + 2), "str_table_cleanup.0:%d" % (n + 2)])
+                for n in (1, 2)]),
 ]
